@@ -27,8 +27,13 @@ CanDecode(sch, table, frame) ==
          [known |-> TRUE, name |-> b.name, ok |-> p.ok, value |-> p.v]
 
 (* frames that must be reported as unknown: neighbouring ids, another bus, an unused id *)
+Unpad(cs) == SelectSeq(cs, LAMBDA c : c # 0)
 Probes(table, frame, otherBus) ==
+    LET b == Unpad(frame.bus) IN
     { f \in { [frame EXCEPT !.sid = (frame.sid + 1) % 2048], [frame EXCEPT !.sid = (frame.sid + 2047) % 2048],
-              [frame EXCEPT !.bus = Pad4(otherBus)], [frame EXCEPT !.sid = 1999] } :
+              [frame EXCEPT !.bus = Pad4(otherBus)], [frame EXCEPT !.sid = 1999] }
+            \cup (IF Len(b) < 4 THEN { [frame EXCEPT !.bus = Pad4(b \o <<49>>)] } ELSE {})        \* the bus name extended by a character
+            \cup (IF Len(b) > 1 THEN { [frame EXCEPT !.bus = Pad4(Take(b, Len(b) - 1))] } ELSE {}) \* a proper prefix of the bus name
+            \cup { [frame EXCEPT !.bus = <<0, 0, 0, 0>>] } :
         Matching(table, f) = {} }
 =============================================================================
